@@ -305,6 +305,7 @@ RULES = [
     ("C14-R6", "FORMAT_SIZE hands its specifier to format_filesize unchanged", lambda ctx: __import__("extra2").format_size_arguments_unchanged(ctx)),
     ("X-LITVALUE", "a literal evaluates to the text written in the query (patterns, size literals, arguments) [shared]", lambda ctx: __import__("extra2").literal_is_its_text(ctx)),
     ("X-LEXEMS", "every lexem but an empty quoted string reaches the grammar (a blank string is a value) [shared]", lambda ctx: __import__("extra2").lexems_are_kept(ctx)),
+    ("X-OPERANDS", "each operand of a comparison is evaluated afresh (no memo shared between operands or conditions: a remembered value comes back as text) [shared]", lambda ctx: __import__("conf").operands_evaluated_afresh(ctx)),
 ]
 
 EXPLANATION = (
